@@ -125,7 +125,10 @@ class FileServer(Resource, aiocoap.interfaces.ObservableResource):
         if any("/" in p or p in (".", "..") for p in path):
             raise InvalidPathError()
 
-        return self.root / "/".join(path)
+        # Joining component-wise: none of the components contains a slash, so
+        # none can be absolute (a leading empty component would make the
+        # "/"-joined string absolute, and thus replace the root).
+        return self.root.joinpath(*path)
 
     async def needs_blockwise_assembly(self, request):
         if request.code != codes.GET:
